@@ -57,7 +57,7 @@ package rest
 //@   ensures [refusal-is-4xx] res == nil ==> httpLastStatus >= 400 && httpLastStatus < 500 && httpDocs == old(httpDocs) + 1
 //@   ensures [no-operation] rpcN == old(rpcN)
 //@   ensures [consistent-depth] res != nil ==> res.MaxDepth == ite(res.Mode == types.PinModeDirect, 0, -1)
-//@   modifies httpResponses, httpLastStatus, httpDocs, heap(types.PinOptions), heap(types.Pin)
+//@   modifies httpResponses, httpLastStatus, httpDocs, heap(types.PinOptions), heap(types.Pin), optionRefused
 
 //@ func (api *API) parsePinPathOrError
 //@   property C11
@@ -65,7 +65,7 @@ package rest
 //@   ensures [non-nil-silent] res != nil ==> httpResponses == old(httpResponses) && httpDocs == old(httpDocs)
 //@   ensures [refusal-is-4xx] res == nil ==> httpLastStatus >= 400 && httpLastStatus < 500 && httpDocs == old(httpDocs) + 1
 //@   ensures [no-operation] rpcN == old(rpcN)
-//@   modifies httpResponses, httpLastStatus, httpDocs, heap(types.PinOptions), heap(types.PinPath)
+//@   modifies httpResponses, httpLastStatus, httpDocs, heap(types.PinOptions), heap(types.PinPath), optionRefused
 
 //@ func (api *API) parsePidOrError
 //@   property C11
@@ -82,28 +82,28 @@ package rest
 //@   ensures httpResponses == old(httpResponses) + 1 && httpDocs <= old(httpDocs) + 1
 //@   ensures rpcN == old(rpcN) || (rpcN == old(rpcN) + 1 && rpcLastSvc == "Cluster" && rpcLastMethod == "Pin")
 //@   ensures rpcN == old(rpcN) ==> httpLastStatus >= 400 && httpLastStatus < 500
-//@   modifies httpResponses, httpLastStatus, httpDocs, rpcN, rpcLastSvc, rpcLastMethod, heap(types.PinOptions), heap(types.Pin)
+//@   modifies httpResponses, httpLastStatus, httpDocs, rpcN, rpcLastSvc, rpcLastMethod, heap(types.PinOptions), heap(types.Pin), optionRefused
 
 //@ func (api *API) unpinHandler
 //@   property C11
 //@   ensures httpResponses == old(httpResponses) + 1 && httpDocs <= old(httpDocs) + 1
 //@   ensures rpcN == old(rpcN) || (rpcN == old(rpcN) + 1 && rpcLastSvc == "Cluster" && rpcLastMethod == "Unpin")
 //@   ensures rpcN == old(rpcN) ==> httpLastStatus >= 400 && httpLastStatus < 500
-//@   modifies httpResponses, httpLastStatus, httpDocs, rpcN, rpcLastSvc, rpcLastMethod, heap(types.PinOptions), heap(types.Pin)
+//@   modifies httpResponses, httpLastStatus, httpDocs, rpcN, rpcLastSvc, rpcLastMethod, heap(types.PinOptions), heap(types.Pin), optionRefused
 
 //@ func (api *API) pinPathHandler
 //@   property C11
 //@   ensures httpResponses == old(httpResponses) + 1 && httpDocs <= old(httpDocs) + 1
 //@   ensures rpcN == old(rpcN) || (rpcN == old(rpcN) + 1 && rpcLastSvc == "Cluster" && rpcLastMethod == "PinPath")
 //@   ensures rpcN == old(rpcN) ==> httpLastStatus >= 400 && httpLastStatus < 500
-//@   modifies httpResponses, httpLastStatus, httpDocs, rpcN, rpcLastSvc, rpcLastMethod, heap(types.PinOptions), heap(types.Pin), heap(types.PinPath)
+//@   modifies httpResponses, httpLastStatus, httpDocs, rpcN, rpcLastSvc, rpcLastMethod, heap(types.PinOptions), heap(types.Pin), heap(types.PinPath), optionRefused
 
 //@ func (api *API) unpinPathHandler
 //@   property C11
 //@   ensures httpResponses == old(httpResponses) + 1 && httpDocs <= old(httpDocs) + 1
 //@   ensures rpcN == old(rpcN) || (rpcN == old(rpcN) + 1 && rpcLastSvc == "Cluster" && rpcLastMethod == "UnpinPath")
 //@   ensures rpcN == old(rpcN) ==> httpLastStatus >= 400 && httpLastStatus < 500
-//@   modifies httpResponses, httpLastStatus, httpDocs, rpcN, rpcLastSvc, rpcLastMethod, heap(types.PinOptions), heap(types.Pin), heap(types.PinPath)
+//@   modifies httpResponses, httpLastStatus, httpDocs, rpcN, rpcLastSvc, rpcLastMethod, heap(types.PinOptions), heap(types.Pin), heap(types.PinPath), optionRefused
 
 //@ func (api *API) notFoundHandler
 //@   property C11
